@@ -988,7 +988,9 @@ c_status_t MMUnflattenMessage(MMessage * msg, const void * inBuf, uint32 inputBu
                      {
                         itemSize = B_LENDIAN_TO_HOST_INT32(itemSize);
 
-                        if ((WillUnsignedAddOverflow(itemSize, sizeof(uint32)) == false)&&(itemSize+sizeof(uint32) <= eLeft)&&((bufs[j] = MBAllocByteBuffer(itemSize, MFalse)) != NULL))
+                        if ((WillUnsignedAddOverflow(itemSize, sizeof(uint32)) == false)&&(itemSize+sizeof(uint32) <= eLeft)
+                          &&((tc != B_STRING_TYPE)||((itemSize > 0)&&(buffer[eOffset+itemSize-1] == '\0')))  /* a string item must carry its NUL terminator, since readers treat it as a C string */
+                          &&((bufs[j] = MBAllocByteBuffer(itemSize, MFalse)) != NULL))
                         {
                            eLeft -= (itemSize + sizeof(uint32));
                            memcpy(&bufs[j]->bytes, &buffer[eOffset], itemSize);
